@@ -41,12 +41,12 @@ Lemma ws_props_cons io p r : ws_props io (PCons p r) = ws_property io p && ws_pr
 Proof. reflexivity. Qed.
 Lemma wf_property_eq io n rq op f : wf_property io (Property n rq op f) =
   field_ident n && negb (rq && op) &&
-  (if io then negb op && negb (is_repeated f) && negb (str_eqb (snake n) (b "type")) else true) &&
+  (if io then negb (is_repeated f) && negb (str_eqb (snake n) (b "type")) else true) &&
   match f with FArray it | FMap it => wf_item it | _ => wf_item f end.
 Proof. reflexivity. Qed.
 Lemma ws_property_eq io n rq op f : ws_property io (Property n rq op f) =
   field_ident n && negb (rq && op) &&
-  (if io then negb op && negb (is_repeated f) && negb (str_eqb (snake n) (b "type")) else true) &&
+  (if io then negb (is_repeated f) && negb (str_eqb (snake n) (b "type")) else true) &&
   match f with FArray it | FMap it => ws_item it | _ => ws_item f end.
 Proof. reflexivity. Qed.
 
@@ -76,7 +76,7 @@ Proof.
     destruct (ws_property io p), (forallb kref_ok (krefs_property p)), (ws_props io ps); reflexivity.
   - intros n rq op f [IH IHit] io. rewrite wf_property_eq, ws_property_eq. cbn [krefs_property].
     set (pre := field_ident n && negb (rq && op) &&
-                (if io then negb op && negb (is_repeated f) && negb (str_eqb (snake n) (b "type")) else true)).
+                (if io then negb (is_repeated f) && negb (str_eqb (snake n) (b "type")) else true)).
     assert (Hf : (match f with FArray it | FMap it => wf_item it | _ => wf_item f end) =
                  (match f with FArray it | FMap it => ws_item it | _ => ws_item f end) && forallb kref_ok (krefs_field f)).
     { destruct f; try exact IH; exact IHit. }
@@ -214,7 +214,7 @@ Proof.
   unfold valid_file, ws_file, krefs_file.
   destruct (import_map (jf_imports f) []) as [im| | |]; cbn [andb]; try (rewrite !andb_false_r; reflexivity).
   rewrite (elements_split snake camel (mkEnv (j5s_pkg f) im (pkg_exports camel bd)) (jf_elements f)).
-  destruct (forallb type_ident_or_seg (jf_dir f)); reflexivity.
+  destruct (forallb type_ident_or_seg (jf_dir f)), (file_lists_ok f); reflexivity.
 Qed.
 
 Lemma struct_distinct_exports bd :
